@@ -428,7 +428,23 @@ impl<T> PooledVec<T> {
     /// Create a new pooled vector
     pub fn new() -> Result<Self> {
         let element_size = std::mem::size_of::<T>();
-        let pool = GLOBAL_POOLS.get_pool_for_size(element_size).clone();
+        let element_align = std::mem::align_of::<T>();
+        // A chunk is only aligned to its pool's alignment: when the pool chosen by size
+        // does not satisfy T, move up to the first larger pool that does
+        let pool = [
+            GLOBAL_POOLS.get_pool_for_size(element_size),
+            &GLOBAL_POOLS.medium_pool,
+            &GLOBAL_POOLS.large_pool,
+        ]
+        .into_iter()
+        .find(|pool| element_align <= pool.config().alignment)
+        .ok_or_else(|| {
+            ZiporaError::invalid_data(format!(
+                "element alignment {} exceeds the largest pool alignment",
+                element_align
+            ))
+        })?
+        .clone();
 
         let chunk = pool.allocate()?;
         let capacity = pool.config().chunk_size / element_size;
